@@ -188,3 +188,53 @@ def ref_flatten(case, stable=frozenset()):
         return leaves, prod
 
     return rec(case["mother"])
+
+
+# ---------------------------------------------------------------------------------------------
+# exhaustive shape enumeration (C11-C13)
+# ---------------------------------------------------------------------------------------------
+
+SHAPE_NAMES = ("Upsilon(4S)", "D*(2010)+", "K_1(1270)+", "anti-K*0", "f'_0", "K_S0", "chi_c1(1P)")
+LEAF_NAMES = ("pi+", "pi-", "gamma", "K''*+", "a_1(1260)+", "e-", "nu_e")
+BFS = (0.5, 0.25, 0.125, 0.1, 0.3, 0.7, 0.9)
+
+
+def enum_shapes(n, max_mult, second_parent=False):
+    """All rooted shapes over n decaying particles P0..Pn-1 where Pi (i>=1) hangs below an earlier
+    Pj with multiplicity 1..max_mult; optionally Pi also occurs (once) below a second earlier
+    particle (the same decaying particle in several places / at several depths)."""
+    import itertools
+
+    names = SHAPE_NAMES[:n]
+    for parents in itertools.product(*[range(i) for i in range(1, n)]):
+        for mults in itertools.product(range(1, max_mult + 1), repeat=n - 1):
+            seconds_options = [None]
+            if second_parent and n >= 3:
+                seconds_options = [None] + [(i, j) for i in range(2, n) for j in range(i) if j != parents[i - 1]]
+            for sec in seconds_options:
+                decays = []
+                for i in range(n):
+                    ds = []
+                    for c in range(1, n):
+                        if parents[c - 1] == i:
+                            ds += [names[c]] * mults[c - 1]
+                        if sec is not None and sec[0] == c and sec[1] == i:
+                            ds.append(names[c])
+                    ds.append(LEAF_NAMES[i % len(LEAF_NAMES)])
+                    if len(ds) == 1:
+                        ds.append(LEAF_NAMES[(i + 3) % len(LEAF_NAMES)])
+                    decays.append([names[i], BFS[i], ds, {}])
+                yield {"mother": names[0], "decays": decays}
+
+
+def tree_depth(t):
+    if isinstance(t, str):
+        return 0
+    return 1 + max([tree_depth(c) for c in t[1]] or [0])
+
+
+def has_repeated_subdecay(t):
+    if isinstance(t, str):
+        return False
+    subs = [c for c in t[1] if not isinstance(c, str)]
+    return len(subs) != len(set(subs)) or any(has_repeated_subdecay(c) for c in subs)
